@@ -1,16 +1,12 @@
-"""What MANIFEST.json claims, per property (bin/manifest.py turns this into MANIFEST.json)."""
+"""What MANIFEST.json claims, per property: one file harness/registry.d/Cxx.json each
+({"technique","text","note"}); bin/manifest.py turns them into MANIFEST.json."""
+import os, json, glob
+HERE = os.path.dirname(os.path.abspath(__file__))
 SOURCE_COMMITS = []
 NOTES = ("Every check: (1) rebuilds and re-checks the property theorems in coq/theories/Props/<id>*.v (Print Assumptions against an allow-list), "
          "(2) runs the real implementation from /repo's working tree and the executable Coq model on the same generated inputs, "
          "(3) runs an independent oracle of the property on the implementation; see DESIGN.md sections 2 and 4.")
 NOT_YET = {}
-TB = ("Trusted: Coq 8.16.1 kernel + vm_compute; the hand-written model is tied to the code only by the correspondence harness "
-      "(generators bound its strength; their distribution is in the evidence); numpy/scipy primitives are oracles. ")
-CHECKS = {
- "C19": {
-  "technique": "Coq proof over list/Z/Q model + vm_compute correspondence with Samples/JointSamples",
-  "text": "Theorems (all closed under the global context, for every chain length, sample type, Nb, Nt, credibility level): burnthin returns stored samples Nb+i*Nt "
-          "with exact length and refusal condition, composes, keeps flags; joint sets member-wise; percentile monotone => lower<=median<=upper, width>=0; variance identity; "
-          "distinct names => variable i gets row i. Tied to the code by EXACT comparison on integer arrays over every (Nb,Nt) for small Ns and by 1e-9 comparison of the statistics.",
-  "note": TB + "Floating rounding of numpy's statistics is not modelled (compared to exact rationals within 1e-9). arviz internals are outside the model; only what arviz is handed is checked."},
-}
+CHECKS = {}
+for f in sorted(glob.glob(os.path.join(HERE, "registry.d", "C*.json"))):
+    CHECKS[os.path.basename(f)[:-5]] = json.load(open(f))
